@@ -338,7 +338,7 @@ def execute_threaded(case):
             what = "deadlock" if t.is_alive() else "consumer-not-reached"
             return Result([("C03:threaded:%s" % what, "emit %d: %d of %d consumer calls happened, "
                             "emit thread alive=%s: %s" % (k, len(futs), want, t.is_alive(), case))],
-                          nontrivial=True)
+                          nontrivial=True, abort=t.is_alive())
         t.join(10)
         if t.is_alive():
             v.append(("C03:threaded:deadlock", "blocking emit never returned: %s" % case))
@@ -356,7 +356,8 @@ def execute_threaded(case):
                       "blocking emit(%d) returned before the consumer finished" % k))
             break
     return Result(v, nontrivial=True, classes=["threaded", "bridge:%d" % case.get("bridge", 0)] +
-                  ["chain:" + c for c in case["chain"]])
+                  ["chain:" + c for c in case["chain"]],
+                  abort=any(s_ == "C03:threaded:deadlock" for s_, _ in v))
 
 
 PARTS = [Part("schedules", case_strategy, execute, quick=1600, thorough=8000),
